@@ -629,6 +629,7 @@ func NewWorld(plan *Plan, ch *Choices) *World {
 		s.FifoBias = plan.Sched.FifoBias
 	}
 	s.StallPm = plan.Sched.StallPm
+	s.APILatency = time.Duration(plan.Sched.APILatencyUs) * time.Microsecond
 	s.FaultFn = w.decideFault
 	s.CallHook = func(c *APICall) {
 		for _, f := range w.onCall {
